@@ -67,6 +67,52 @@ class CircuitCarrier:
         return "ok", m.packet_id
 
 
+def _orders(ws):
+    """Ack lists are in arrival order, not ID order: ascending, descending, both rotated by one (first and last
+    on one side of an injection, the middle on the other), and interleaved from both ends."""
+    asc = sorted(ws)
+    desc = asc[::-1]
+    inter = [x for pair in zip(asc, desc) for x in pair][:len(asc)]
+    out = []
+    for o in (asc, desc, asc[1:] + asc[:1], desc[1:] + desc[:1], inter):
+        if o and o not in out:
+            out.append(o)
+    return out
+
+
+def _ack_batches(self, obs):
+    """Wire IDs acknowledged by the far side arrive in one message of the opposite direction, as appended acks
+    or as PacketAck blocks, in any order: each is translated back on its own (injected ones are withheld)."""
+    from hippolyzer.lib.base.message.message import Block, Message
+    from hippolyzer.lib.base.network.transport import Direction
+    orig = {w: k for w, k in obs["orig"]}
+    injected = {w for w, b in obs["inj"] if b}
+    ws = sorted(set(orig) | injected)
+    bad, n = [], 0
+    for order in _orders(ws):
+        want = [orig[w] for w in order if w in orig]
+        for form in ("appended", "blocks"):
+            self.in_seq += 1
+            if form == "appended":
+                m = Message("CompletePingCheck", Block("PingID", PingID=1), direction=Direction.IN,
+                            packet_id=self.in_seq, acks=tuple(order))
+            else:
+                m = Message("PacketAck", *[Block("Packets", ID=w) for w in order], direction=Direction.IN,
+                            packet_id=self.in_seq)
+            st, r = impl_call(self.c.prepare_message, m)
+            n += 1
+            if st != "ok":
+                bad.append(("ack batch (%s) raised" % form, order, want, r))
+                continue
+            got = list(m.acks) if form == "appended" else [b["ID"] for b in m["Packets"]]
+            if got != want:
+                bad.append(("ack batch (%s)" % form, order, want, got))
+    return n, bad
+
+
+CircuitCarrier.ack_batches = _ack_batches
+CircuitCarrier.in_seq = 0
+
 _CARRIER = "tracker"
 
 
@@ -93,6 +139,10 @@ def _compare(tr, obs):
         r = impl_call(tr.was_injected, w)
         if r != ("ok", b):
             bad.append(("was_injected", w, b, r))
+    if isinstance(tr, CircuitCarrier):
+        n2, b2 = tr.ack_batches(obs)
+        n += n2
+        bad += b2
     return n, bad
 
 
